@@ -10,16 +10,15 @@
    particular.
    ROUNDING.  Now a theorem (last block, Proofs/QuadFloat.v): the binary64
    ACCUMULATION of the trapezoid rule, of the 1/3 rule and of definite_integral
-   with an even segment count, and of one 3/8 panel — given the values the integrand returned at the
+   for EVERY segment count >= 1 (1, even, 3, odd), and of one 3/8 panel — given the values the integrand returned at the
    nodes the loop visited, the returned float is within ((1+eps)^k - 1) * |h| *
    (weighted sum of |values|) / c of the exact weighted sum (k = m + 2 for m
    trapezoid segments, k = p + 3 for p Simpson panels, k = 7 for the 3/8 panel), under computable
    no-overflow / no-underflow hypotheses.  Still NOT a theorem (measured by the
    correspondence check only): the placement of the nodes (x_i accumulated as
    x_(i-1) + h versus a + i*h), the integrand's own rounding (for polynomials see
-   C01's evaluation bound), the assembly of the odd dispatch (3/8 panel + 1/3
-   rule + one addition; the two pieces are theorems) and the Romberg extrapolation
-   table.
+   C01's evaluation bound) and the Romberg extrapolation table.  (Odd counts
+   2p+3: exponent max(7, p+3) + 1 on the sum of the two panels' magnitudes.)
    "f is a cubic" is stated extensionally (forall x, f x = Ok (a0 + a1 x + a2 x^2
    + a3 x^3)), which covers every real cubic and both polynomial types
    ([c05_simpson_exact_simple], [c05_exact_inter]).  RInt is Coquelicot's
@@ -531,7 +530,7 @@ Proof. exact Proofs.QuadFloat.ex_simpson_float_error. Qed.
 (* binary64 3/8 panel (spliced in for odd segment counts) at the points the caller passes: the products 3*f_1,
    3*f_2, 3*h, (3h)*sum without overflow/underflow ([okmul]), the three partial sums finite, the division by 8
    [okdiv].  7 roundings on the longest path: exponent 7.  The assembly of the odd dispatch (this panel + the
-   1/3 rule on the remaining segments + one addition) is not pinned. *)
+   1/3 rule on the remaining segments + one addition) is [c05_definite_integral_odd_float_error] below. *)
 Theorem c05_simpson38_float_error : forall (f : PrimFloat.float -> res PrimFloat.float) (h p0 p1 p2 p3 r f0 f1 f2 f3 : PrimFloat.float),
   @simpson38 PrimFloat.float FNum f h p0 p1 p2 p3 = Ok r ->
   f p0 = Ok f0 -> f p1 = Ok f1 -> f p2 = Ok f2 -> f p3 = Ok f3 ->
@@ -586,3 +585,216 @@ Example c05_simpson38_float_nonvacuous :
     (Rabs (B2R (Prim2B 0%float)) + 3 * Rabs (B2R (Prim2B 0x1p-4%float)) + 3 * Rabs (B2R (Prim2B 0x1p-2%float))
      + Rabs (B2R (Prim2B 0x1.2p-1%float))) / 8.
 Proof. exact Proofs.QuadFloat.ex_simpson38_float_error. Qed.
+
+(* ---- definite_integral, binary64, EVERY segment count >= 1: 1 (trapezoid), 2p (above), 3 (the 3/8 panel
+   alone) and 2p+3 with p >= 1 (3/8 panel on the last three segments at q_i = b - h*i as computed, evaluated
+   first; 1/3 rule on the first 2p segments; r = fl(fl(0 + s38) + s13): one rounding more than the larger of
+   the two exponents).  Hypotheses: the union of the two families plus "r is finite". ---- *)
+(* one segment: dispatch to the trapezoid rule; 1 addition + 1 product + 1 division *)
+Theorem c05_definite_integral_one_float_error :
+  forall (f : PrimFloat.float -> res PrimFloat.float) (a b r v0 ve : PrimFloat.float),
+  @definite_integral PrimFloat.float FNum f a b 1 = Ok r ->
+  let h := PrimFloat.div (PrimFloat.sub b a) (@nofN PrimFloat.float FNum 1) in
+  f a = Ok v0 -> f b = Ok ve ->
+  is_finite (Prim2B (PrimFloat.add v0 ve)) = true ->
+  okmul h (PrimFloat.add v0 ve) ->
+  okdiv (PrimFloat.mul h (PrimFloat.add v0 ve)) (@ntwo PrimFloat.float FNum) ->
+  is_finite (Prim2B r) = true /\
+  Rabs (B2R (Prim2B r) - B2R (Prim2B h) * (B2R (Prim2B v0) + B2R (Prim2B ve)) / 2) <=
+    ((1 + bpow radix2 (-53)) ^ 3 - 1) * Rabs (B2R (Prim2B h)) *
+    (Rabs (B2R (Prim2B v0)) + Rabs (B2R (Prim2B ve))) / 2.
+Proof. exact Proofs.QuadFloat.definite_integral_one_float_error. Qed.
+Check c05_definite_integral_one_float_error :
+  forall (f : PrimFloat.float -> res PrimFloat.float) (a b r v0 ve : PrimFloat.float),
+  @definite_integral PrimFloat.float FNum f a b 1 = Ok r ->
+  let h := PrimFloat.div (PrimFloat.sub b a) (@nofN PrimFloat.float FNum 1) in
+  f a = Ok v0 -> f b = Ok ve ->
+  is_finite (Prim2B (PrimFloat.add v0 ve)) = true ->
+  okmul h (PrimFloat.add v0 ve) ->
+  okdiv (PrimFloat.mul h (PrimFloat.add v0 ve)) (@ntwo PrimFloat.float FNum) ->
+  is_finite (Prim2B r) = true /\
+  Rabs (B2R (Prim2B r) - B2R (Prim2B h) * (B2R (Prim2B v0) + B2R (Prim2B ve)) / 2) <=
+    ((1 + bpow radix2 (-53)) ^ 3 - 1) * Rabs (B2R (Prim2B h)) *
+    (Rabs (B2R (Prim2B v0)) + Rabs (B2R (Prim2B ve))) / 2.
+Print Assumptions c05_definite_integral_one_float_error.
+
+(* three segments: only the 3/8 panel runs (`remaining` = 0), then `0.0 + s` (exact in value) *)
+Theorem c05_definite_integral_three_float_error :
+  forall (f : PrimFloat.float -> res PrimFloat.float) (a b r g0 g1 g2 g3 : PrimFloat.float),
+  @definite_integral PrimFloat.float FNum f a b 3 = Ok r ->
+  let h := PrimFloat.div (PrimFloat.sub b a) (@nofN PrimFloat.float FNum 3) in
+  let three := @nofZ PrimFloat.float FNum 3 in
+  f (PrimFloat.sub b (PrimFloat.mul h (@nofZ PrimFloat.float FNum 3))) = Ok g0 ->
+  f (PrimFloat.sub b (PrimFloat.mul h (@nofZ PrimFloat.float FNum 2))) = Ok g1 ->
+  f (PrimFloat.sub b (PrimFloat.mul h (@nofZ PrimFloat.float FNum 1))) = Ok g2 ->
+  f b = Ok g3 ->
+  let t1 := PrimFloat.mul three g1 in
+  let t2 := PrimFloat.mul three g2 in
+  let s := PrimFloat.add (PrimFloat.add (PrimFloat.add g0 t1) t2) g3 in
+  okmul three g1 -> okmul three g2 ->
+  is_finite (Prim2B (PrimFloat.add g0 t1)) = true ->
+  is_finite (Prim2B (PrimFloat.add (PrimFloat.add g0 t1) t2)) = true ->
+  is_finite (Prim2B s) = true ->
+  okmul three h -> okmul (PrimFloat.mul three h) s ->
+  okdiv (PrimFloat.mul (PrimFloat.mul three h) s) (@nofZ PrimFloat.float FNum 8) ->
+  is_finite (Prim2B r) = true /\
+  Rabs (B2R (Prim2B r) -
+        3 * B2R (Prim2B h) *
+          (B2R (Prim2B g0) + 3 * B2R (Prim2B g1) + 3 * B2R (Prim2B g2) + B2R (Prim2B g3)) / 8) <=
+    ((1 + bpow radix2 (-53)) ^ 7 - 1) * (3 * Rabs (B2R (Prim2B h))) *
+    (Rabs (B2R (Prim2B g0)) + 3 * Rabs (B2R (Prim2B g1)) + 3 * Rabs (B2R (Prim2B g2))
+     + Rabs (B2R (Prim2B g3))) / 8.
+Proof. exact Proofs.QuadFloat.definite_integral_three_float_error. Qed.
+Check c05_definite_integral_three_float_error :
+  forall (f : PrimFloat.float -> res PrimFloat.float) (a b r g0 g1 g2 g3 : PrimFloat.float),
+  @definite_integral PrimFloat.float FNum f a b 3 = Ok r ->
+  let h := PrimFloat.div (PrimFloat.sub b a) (@nofN PrimFloat.float FNum 3) in
+  let three := @nofZ PrimFloat.float FNum 3 in
+  f (PrimFloat.sub b (PrimFloat.mul h (@nofZ PrimFloat.float FNum 3))) = Ok g0 ->
+  f (PrimFloat.sub b (PrimFloat.mul h (@nofZ PrimFloat.float FNum 2))) = Ok g1 ->
+  f (PrimFloat.sub b (PrimFloat.mul h (@nofZ PrimFloat.float FNum 1))) = Ok g2 ->
+  f b = Ok g3 ->
+  let t1 := PrimFloat.mul three g1 in
+  let t2 := PrimFloat.mul three g2 in
+  let s := PrimFloat.add (PrimFloat.add (PrimFloat.add g0 t1) t2) g3 in
+  okmul three g1 -> okmul three g2 ->
+  is_finite (Prim2B (PrimFloat.add g0 t1)) = true ->
+  is_finite (Prim2B (PrimFloat.add (PrimFloat.add g0 t1) t2)) = true ->
+  is_finite (Prim2B s) = true ->
+  okmul three h -> okmul (PrimFloat.mul three h) s ->
+  okdiv (PrimFloat.mul (PrimFloat.mul three h) s) (@nofZ PrimFloat.float FNum 8) ->
+  is_finite (Prim2B r) = true /\
+  Rabs (B2R (Prim2B r) -
+        3 * B2R (Prim2B h) *
+          (B2R (Prim2B g0) + 3 * B2R (Prim2B g1) + 3 * B2R (Prim2B g2) + B2R (Prim2B g3)) / 8) <=
+    ((1 + bpow radix2 (-53)) ^ 7 - 1) * (3 * Rabs (B2R (Prim2B h))) *
+    (Rabs (B2R (Prim2B g0)) + 3 * Rabs (B2R (Prim2B g1)) + 3 * Rabs (B2R (Prim2B g2))
+     + Rabs (B2R (Prim2B g3))) / 8.
+Print Assumptions c05_definite_integral_three_float_error.
+
+(* 2p+3 segments, p >= 1 *)
+Theorem c05_definite_integral_odd_float_error :
+  forall (f : PrimFloat.float -> res PrimFloat.float) (a b : PrimFloat.float) (p : nat)
+         (r g0 g1 g2 g3 v0 vm ve : PrimFloat.float) (ps : list (PrimFloat.float * PrimFloat.float)),
+  (1 <= p)%nat ->
+  @definite_integral PrimFloat.float FNum f a b (N.of_nat (2 * p + 3)) = Ok r ->
+  let h := PrimFloat.div (PrimFloat.sub b a) (@nofN PrimFloat.float FNum (N.of_nat (2 * p + 3))) in
+  let three := @nofZ PrimFloat.float FNum 3 in
+  f (PrimFloat.sub b (PrimFloat.mul h (@nofZ PrimFloat.float FNum 3))) = Ok g0 ->
+  f (PrimFloat.sub b (PrimFloat.mul h (@nofZ PrimFloat.float FNum 2))) = Ok g1 ->
+  f (PrimFloat.sub b (PrimFloat.mul h (@nofZ PrimFloat.float FNum 1))) = Ok g2 ->
+  f b = Ok g3 ->
+  let t1 := PrimFloat.mul three g1 in
+  let t2 := PrimFloat.mul three g2 in
+  let s := PrimFloat.add (PrimFloat.add (PrimFloat.add g0 t1) t2) g3 in
+  okmul three g1 -> okmul three g2 ->
+  is_finite (Prim2B (PrimFloat.add g0 t1)) = true ->
+  is_finite (Prim2B (PrimFloat.add (PrimFloat.add g0 t1) t2)) = true ->
+  is_finite (Prim2B s) = true ->
+  okmul three h -> okmul (PrimFloat.mul three h) s ->
+  okdiv (PrimFloat.mul (PrimFloat.mul three h) s) (@nofZ PrimFloat.float FNum 8) ->
+  f a = Ok v0 -> length ps = (p - 1)%nat ->
+  (forall j, (j < length ps)%nat ->
+     f (PrimFloat.sub (@snode PrimFloat.float FNum h a (S j)) h) = Ok (fst (nth j ps (PrimFloat.zero, PrimFloat.zero))) /\
+     f (@snode PrimFloat.float FNum h a (S j)) = Ok (snd (nth j ps (PrimFloat.zero, PrimFloat.zero)))) ->
+  f (PrimFloat.sub (@snode PrimFloat.float FNum h a p) h) = Ok vm ->
+  f (@snode PrimFloat.float FNum h a p) = Ok ve ->
+  (forall k, (k <= p)%nat ->
+     is_finite (Prim2B (fold_left PrimFloat.add (firstn k (s13_terms ps vm ve)) v0)) = true) ->
+  okmul h (fold_left PrimFloat.add (s13_terms ps vm ve) v0) ->
+  okdiv (PrimFloat.mul h (fold_left PrimFloat.add (s13_terms ps vm ve) v0)) (@nofZ PrimFloat.float FNum 3) ->
+  is_finite (Prim2B r) = true ->
+  Rabs (B2R (Prim2B r) -
+        (3 * B2R (Prim2B h) *
+           (B2R (Prim2B g0) + 3 * B2R (Prim2B g1) + 3 * B2R (Prim2B g2) + B2R (Prim2B g3)) / 8
+         + B2R (Prim2B h) *
+           (B2R (Prim2B v0)
+            + Rsum (map (fun q => 4 * B2R (Prim2B (fst q)) + 2 * B2R (Prim2B (snd q))) ps)
+            + 4 * B2R (Prim2B vm) + B2R (Prim2B ve)) / 3)) <=
+    ((1 + bpow radix2 (-53)) ^ (Nat.max 7 (p + 3) + 1) - 1) *
+    (3 * Rabs (B2R (Prim2B h)) *
+       (Rabs (B2R (Prim2B g0)) + 3 * Rabs (B2R (Prim2B g1)) + 3 * Rabs (B2R (Prim2B g2))
+        + Rabs (B2R (Prim2B g3))) / 8
+     + Rabs (B2R (Prim2B h)) *
+       (Rabs (B2R (Prim2B v0))
+        + Rsum (map (fun q => 4 * Rabs (B2R (Prim2B (fst q))) + 2 * Rabs (B2R (Prim2B (snd q)))) ps)
+        + 4 * Rabs (B2R (Prim2B vm)) + Rabs (B2R (Prim2B ve))) / 3).
+Proof. exact Proofs.QuadFloat.definite_integral_odd_float_error. Qed.
+Check c05_definite_integral_odd_float_error :
+  forall (f : PrimFloat.float -> res PrimFloat.float) (a b : PrimFloat.float) (p : nat)
+         (r g0 g1 g2 g3 v0 vm ve : PrimFloat.float) (ps : list (PrimFloat.float * PrimFloat.float)),
+  (1 <= p)%nat ->
+  @definite_integral PrimFloat.float FNum f a b (N.of_nat (2 * p + 3)) = Ok r ->
+  let h := PrimFloat.div (PrimFloat.sub b a) (@nofN PrimFloat.float FNum (N.of_nat (2 * p + 3))) in
+  let three := @nofZ PrimFloat.float FNum 3 in
+  f (PrimFloat.sub b (PrimFloat.mul h (@nofZ PrimFloat.float FNum 3))) = Ok g0 ->
+  f (PrimFloat.sub b (PrimFloat.mul h (@nofZ PrimFloat.float FNum 2))) = Ok g1 ->
+  f (PrimFloat.sub b (PrimFloat.mul h (@nofZ PrimFloat.float FNum 1))) = Ok g2 ->
+  f b = Ok g3 ->
+  let t1 := PrimFloat.mul three g1 in
+  let t2 := PrimFloat.mul three g2 in
+  let s := PrimFloat.add (PrimFloat.add (PrimFloat.add g0 t1) t2) g3 in
+  okmul three g1 -> okmul three g2 ->
+  is_finite (Prim2B (PrimFloat.add g0 t1)) = true ->
+  is_finite (Prim2B (PrimFloat.add (PrimFloat.add g0 t1) t2)) = true ->
+  is_finite (Prim2B s) = true ->
+  okmul three h -> okmul (PrimFloat.mul three h) s ->
+  okdiv (PrimFloat.mul (PrimFloat.mul three h) s) (@nofZ PrimFloat.float FNum 8) ->
+  f a = Ok v0 -> length ps = (p - 1)%nat ->
+  (forall j, (j < length ps)%nat ->
+     f (PrimFloat.sub (@snode PrimFloat.float FNum h a (S j)) h) = Ok (fst (nth j ps (PrimFloat.zero, PrimFloat.zero))) /\
+     f (@snode PrimFloat.float FNum h a (S j)) = Ok (snd (nth j ps (PrimFloat.zero, PrimFloat.zero)))) ->
+  f (PrimFloat.sub (@snode PrimFloat.float FNum h a p) h) = Ok vm ->
+  f (@snode PrimFloat.float FNum h a p) = Ok ve ->
+  (forall k, (k <= p)%nat ->
+     is_finite (Prim2B (fold_left PrimFloat.add (firstn k (s13_terms ps vm ve)) v0)) = true) ->
+  okmul h (fold_left PrimFloat.add (s13_terms ps vm ve) v0) ->
+  okdiv (PrimFloat.mul h (fold_left PrimFloat.add (s13_terms ps vm ve) v0)) (@nofZ PrimFloat.float FNum 3) ->
+  is_finite (Prim2B r) = true ->
+  Rabs (B2R (Prim2B r) -
+        (3 * B2R (Prim2B h) *
+           (B2R (Prim2B g0) + 3 * B2R (Prim2B g1) + 3 * B2R (Prim2B g2) + B2R (Prim2B g3)) / 8
+         + B2R (Prim2B h) *
+           (B2R (Prim2B v0)
+            + Rsum (map (fun q => 4 * B2R (Prim2B (fst q)) + 2 * B2R (Prim2B (snd q))) ps)
+            + 4 * B2R (Prim2B vm) + B2R (Prim2B ve)) / 3)) <=
+    ((1 + bpow radix2 (-53)) ^ (Nat.max 7 (p + 3) + 1) - 1) *
+    (3 * Rabs (B2R (Prim2B h)) *
+       (Rabs (B2R (Prim2B g0)) + 3 * Rabs (B2R (Prim2B g1)) + 3 * Rabs (B2R (Prim2B g2))
+        + Rabs (B2R (Prim2B g3))) / 8
+     + Rabs (B2R (Prim2B h)) *
+       (Rabs (B2R (Prim2B v0))
+        + Rsum (map (fun q => 4 * Rabs (B2R (Prim2B (fst q))) + 2 * Rabs (B2R (Prim2B (snd q)))) ps)
+        + 4 * Rabs (B2R (Prim2B vm)) + Rabs (B2R (Prim2B ve))) / 3).
+Print Assumptions c05_definite_integral_odd_float_error.
+
+(* the four cases together cover every count n >= 1 (n = 1, n = 2p with p >= 1, n = 3, n = 2p+3 with p >= 1) *)
+Theorem c05_definite_integral_float_error_cases : forall n : N, (1 <= n)%N ->
+  n = 1%N \/ (exists p, (1 <= p)%nat /\ n = N.of_nat (2 * p)) \/ n = 3%N \/
+  (exists p, (1 <= p)%nat /\ n = N.of_nat (2 * p + 3)).
+Proof. exact Proofs.QuadFloat.segment_count_cases. Qed.
+Check c05_definite_integral_float_error_cases : forall n : N, (1 <= n)%N ->
+  n = 1%N \/ (exists p, (1 <= p)%nat /\ n = N.of_nat (2 * p)) \/ n = 3%N \/
+  (exists p, (1 <= p)%nat /\ n = N.of_nat (2 * p + 3)).
+Print Assumptions c05_definite_integral_float_error_cases.
+
+(* odd count, non-vacuity: x*x on [0,1], 5 segments; sampled values defined by computation in Proofs/QuadFloat.v *)
+Example c05_odd_float_nonvacuous :
+  exists r, @definite_integral PrimFloat.float FNum ex_sq 0%float 1%float 5 = Ok r /\
+  is_finite (Prim2B r) = true /\
+  Rabs (B2R (Prim2B r) -
+        (3 * B2R (Prim2B ex5_h) *
+           (B2R (Prim2B ex5_g0) + 3 * B2R (Prim2B ex5_g1) + 3 * B2R (Prim2B ex5_g2) + B2R (Prim2B 1%float)) / 8
+         + B2R (Prim2B ex5_h) *
+           (B2R (Prim2B 0%float)
+            + Rsum (map (fun q => 4 * B2R (Prim2B (fst q)) + 2 * B2R (Prim2B (snd q))) [])
+            + 4 * B2R (Prim2B ex5_vm) + B2R (Prim2B ex5_ve)) / 3)) <=
+    ((1 + bpow radix2 (-53)) ^ 8 - 1) *
+    (3 * Rabs (B2R (Prim2B ex5_h)) *
+       (Rabs (B2R (Prim2B ex5_g0)) + 3 * Rabs (B2R (Prim2B ex5_g1)) + 3 * Rabs (B2R (Prim2B ex5_g2))
+        + Rabs (B2R (Prim2B 1%float))) / 8
+     + Rabs (B2R (Prim2B ex5_h)) *
+       (Rabs (B2R (Prim2B 0%float))
+        + Rsum (map (fun q => 4 * Rabs (B2R (Prim2B (fst q))) + 2 * Rabs (B2R (Prim2B (snd q)))) [])
+        + 4 * Rabs (B2R (Prim2B ex5_vm)) + Rabs (B2R (Prim2B ex5_ve))) / 3).
+Proof. exact Proofs.QuadFloat.ex_odd_float_error. Qed.
